@@ -108,7 +108,7 @@ def gen_secret_line(rng, opts, state):
                     sec["text"] = S.j9_occurrence(rng, sec)[0]
                 state[key] = sec
             texts.append(state[key]["text"])
-        line, parts, _ = S.render(rng, f, texts, trail=trail)
+        line, parts, _ = S.render(rng, f, texts, trail=trail, u_is_secret=rng.random() < 0.15 and cls in ("text", "numeric", "hex", "type7"))
         ok = all(_benign_ok(p[1], opts) for p in parts if p[0] == "lit")
         if ok:
             lead = line[: len(line) - len(line.lstrip())]
